@@ -46,12 +46,14 @@ type FlatArr = [Option<u8>; NC];
 struct Flat {
     m: FlatArr,
     used: [bool; NC],
+    hidden: bool, // a tombstone of a newer level hid a value of an older level
 }
 impl Flat {
     fn new() -> Self {
         Flat {
             m: [None; NC],
             used: [false; NC],
+            hidden: false,
         }
     }
     fn distinct(&self) -> usize {
@@ -232,6 +234,9 @@ fn overlay(f: &mut Flat, lvl: &Level) {
     let mut c = 0;
     while c < NC {
         if let Some(x) = lvl[c] {
+            if x.is_none() && f.m[c].is_some() {
+                f.hidden = true;
+            }
             f.m[c] = x;
             f.used[c] = true;
         }
@@ -349,6 +354,8 @@ fn index_chain(nidx: usize, per: usize, prefix: bool) -> (usize, u8) {
     let mut flat = Flat::new();
     let reader = any_reader(nidx, per, &mut flat);
     kani::assume(flat.distinct() <= CAP);
+    kani::cover!(flat.hidden, "tombstone in a newer index hides a value of an older index");
+    kani::cover!(flat.distinct() >= 2, "two or more distinct keys in the chain");
     let head = nidx as u64 - 1;
     let index = LinearFactIndex {
         repr: build_repr(head, &reader.idx[head as usize]),
@@ -442,6 +449,8 @@ fn update_step(ntop: usize, nmid: Option<usize>, nidx: usize, replay: bool, pref
     } else {
         assert!(p.insert(fname(), mk_key(c), bx(v)).is_ok());
     }
+    kani::cover!(del & flat.m[c as usize].is_some(), "delete of a visible fact");
+    kani::cover!(!del & flat.m[c as usize].is_some(), "overwrite of a visible fact");
     flat.m[c as usize] = if del { None } else { Some(v) };
     let mut listed = (0, 0);
     if prefix {
